@@ -60,6 +60,13 @@ def generate(rng, tier, index):
         plan["companion"] = comp
         n2 = lines
         plan["rpcs"] = [r for r in dict.fromkeys(rpcs + [max(n2 // 2, 1), n2])][:4]
+    if rng.random() < 0.2:
+        # a creating open that is interrupted by a storage error in the middle of an image's
+        # metadata pass (its n-th read of that image fails), with one request size; the opens that
+        # follow use other request sizes and must not inherit anything from it
+        plan["interrupted_first"] = {"image": rng.randrange(len(wp["images"])),
+                                     "nth": rng.choice([1, 2, 2, 3, 4]),
+                                     "rpc": rng.choice([1, 2, 3, max(n // 2, 1)])}
     return plan
 
 
@@ -78,12 +85,26 @@ def execute(plan):
                 stats["companion-products"] = 1
             except Exception as e:  # noqa: BLE001 - the companion is not what is judged here
                 stats["companion-raised:" + type(e).__name__] = 1
+        itr = plan.get("interrupted_first")
+        if itr and w.backend in world.RECORDED:
+            SIM.read_fault = {"file": prod.images[itr["image"]], "nth": itr["nth"]}
+            try:
+                w.open(create_cache=True, records_per_chunk=itr["rpc"])
+                stats["interrupted-open-completed"] = 1
+            except Exception:  # noqa: BLE001 - the storage error (or what the library made of it)
+                stats["interrupted-open-raised"] = 1
+            finally:
+                SIM.read_fault = None
         trees = []
         cached = plan["cached"]
         for k, r in enumerate(plan["rpcs"]):
             opts = {"records_per_chunk": r}
             if cached and k == 0:
                 opts.update(use_cache=False, create_cache=True)
+            elif cached and k == len(plan["rpcs"]) - 1:
+                # the last one parses the image itself: trees that all come from one index would
+                # agree with each other whatever the index says
+                opts.update(use_cache=False)
             elif cached:
                 opts.update(use_cache=True)
             else:
@@ -91,6 +112,20 @@ def execute(plan):
             try:
                 t = w.open(**opts)
             except Exception as e:  # noqa: BLE001
+                if cached and k == 0 and plan.get("interrupted_first"):
+                    # a creating open that fails only because an EARLIER creating open with another
+                    # request size was interrupted: what can be opened depends on the request size
+                    violations.append(Violation(ID, "open-raised", "after-interrupted-creation:"
+                                                + type(e).__name__, {
+                        "rpc": r, "error": exc_text(e), "interrupted": plan["interrupted_first"]}))
+                    cached = False
+                    try:
+                        t = w.open(use_cache=False, records_per_chunk=r)
+                    except Exception:  # noqa: BLE001
+                        t = None
+                    if t is not None:
+                        trees.append((r, t))
+                    continue
                 if cached and k == 0:
                     stats["cache-unavailable"] = stats.get("cache-unavailable", 0) + 1
                     cached = False
